@@ -31,6 +31,10 @@ func init() {
 			{ID: "R20i", Floor: 1, Doc: "the path constructor treats every path as a file name: NewDeferredCarWriterForPath stores its path parameter as given, compares it with nothing and never hands over to the stream constructor", Run: ruleR20i},
 			{ID: "R20j", Floor: 3, Doc: "the deferred writer adds no state and no checks of its own to a put: no error is kept in a field of DeferredCarWriter, and Put / Has pass their context on without consulting it (the direct writer does neither)", Run: ruleR20j},
 			{ID: "R20l", Floor: 20, Doc: "an option constructor sets the one option it is named after: the overridable default the stream constructor prepends leaves nothing else behind (= R04i)", Run: ruleR04i},
+			{ID: "R20m", Floor: 1, Doc: "the deferred writer keeps no state of its own beyond the pinned fields (= R08s)", Run: ruleR08s},
+			{ID: "R20n", Floor: 1, Doc: "every stream writer starts from WriteAsCarV1(true), whatever its stream is: the constructor prepends the default on every path and does not inspect the stream's dynamic type", Run: ruleR20n},
+			{ID: "R20o", Floor: 1, Doc: "what DeferredCarWriter.Put does does not depend on the length of the content: an empty block notifies the listeners like any other", Run: ruleR20o},
+			{ID: "R20p", Floor: 1, Doc: "Put calls the callbacks that were registered, each once per Put, in order: the entry is read by value before the once-only removal splices the list", Run: ruleR20p},
 		},
 	})
 }
